@@ -1309,6 +1309,19 @@ func (t *xtr) seq(list []ast.Stmt, env *xenv, ind string, depth int) string {
 	return ""
 }
 
+// errOnlyCall: evaluates a call of an extern / tied function whose only result is an error (reports whether it was one)
+func (t *xtr) errOnlyCall(ce *ast.CallExpr, env *xenv) bool {
+	if x := t.externByKey(t.norm(ce.Fun)); x != nil && x.fallible && x.res == "" {
+		t.callExtern(x, t.externArgs(x, ce, env), ce)
+		return true
+	}
+	if d := t.callee(ce.Fun); d != nil && d.hasErr && len(d.resTys) == 0 {
+		t.callDone(d, ce.Args, env, ce)
+		return true
+	}
+	return false
+}
+
 func (t *xtr) ignored(ce *ast.CallExpr) bool {
 	n := t.norm(ce.Fun)
 	for _, ig := range t.spec.ignore {
@@ -1381,7 +1394,9 @@ func (t *xtr) ret(s *ast.ReturnStmt, env *xenv, ind string) string {
 	if t.hasErr {
 		last := results[len(results)-1]
 		results = results[:len(results)-1]
-		if identName(last) != "nil" {
+		if ce, ok := last.(*ast.CallExpr); ok && len(results) == 0 && t.errOnlyCall(ce, env) {
+			// `return f(…)` with f returning only an error: f's failure is ours, its success is `nil`
+		} else if identName(last) != "nil" {
 			// a Go error return: the value positions are not evaluated
 			return t.flush(ind) + ind + "none\n"
 		}
